@@ -159,7 +159,8 @@ fn build_system(node: roxmltree::Node) -> VypSystem {
                 heating_supply_temp,
                 dhw_demand,
                 equipment,
-                zone_equipment: zone_equipment.unwrap(),
+                // Un sistema sin bloque de unidades terminales se queda sin equipos de zona
+                zone_equipment: zone_equipment.unwrap_or_default(),
             }
         }
         "SIS_ClimatizacionUnizona" => {
@@ -214,7 +215,8 @@ fn build_system(node: roxmltree::Node) -> VypSystem {
                 return_air_flow,
                 options,
                 equipment,
-                zone_equipment: zone_equipment.unwrap(),
+                // Un sistema sin bloque de unidades terminales se queda sin equipos de zona
+                zone_equipment: zone_equipment.unwrap_or_default(),
             }
         }
         _ => panic!("Sistema de tipo desconocido: {}", kind),
